@@ -31,6 +31,10 @@ var untypedNil = types.Typ[types.UntypedNil]
 
 type specErr struct{ msg string }
 
+// undecidableErr: a clause names a function that no longer exists (a closure or helper that was
+// restructured away); the clause cannot be evaluated, everything else about the function can.
+type undecidableErr struct{ msg string }
+
 func specFail(f string, a ...interface{}) { panic(specErr{fmt.Sprintf(f, a...)}) }
 
 func (e *Env) curHeap() map[string]string {
@@ -751,7 +755,7 @@ func (e *Env) evalCall(ex *SExpr) Val {
 			}
 			f, ok := e.x.P.fns[e.strArg(args[1])]
 			if !ok {
-				specFail("unknown function %s", e.strArg(args[1]))
+				panic(undecidableErr{"the clause names function " + e.strArg(args[1]) + ", which no longer exists"})
 			}
 			return boolVal(sEq(a.L[0], fmt.Sprint(e.x.P.fnIDs[f])))
 		case "captured":
@@ -762,7 +766,7 @@ func (e *Env) evalCall(ex *SExpr) Val {
 			}
 			f, ok := e.x.P.fns[e.strArg(args[1])]
 			if !ok {
-				specFail("unknown function %s", e.strArg(args[1]))
+				panic(undecidableErr{"the clause names function " + e.strArg(args[1]) + ", which no longer exists"})
 			}
 			i := e.intArg(args[2])
 			fv := f.FreeVars[i]
